@@ -72,7 +72,7 @@ func checkC16(c *Ctx) Meta {
 	c.Rule("C16-CROSS", "every wire field is written by Msg() from the same-named in-memory field and read back by SetMsg() into it; every in-memory field crosses the wire or is a documented non-wire field", 60)
 	c.Rule("C16-NILJSON", "a pointer that JSON decoding can leave nil (\"proof\":null, \"qualities\":[null]) is nil-tested before it is dereferenced, in the decoder and in every function it is handed to", 2)
 	c.Rule("C16-ERR", "every decoder error inside SetMsg/SetBytes/DecodeMessage (uuid, hash, hex, group element, JSON) is returned", 30)
-	c.Rule("C16-FRAME", "the received frame size is compared with the receive limit, and oversized frames are rejected, before the frame buffer is allocated", 1)
+	c.Rule("C16-FRAME", "the received frame size is compared with the receive limit, and oversized frames are rejected, before the frame buffer is allocated; the default limit is a real bound", 2)
 	c.Rule("C16-ENCNIL", "encoding does not dereference optional pointer fields of the proof (a pool-contract proof has no pool public key) without a nil test, and carries the alternative field", 2)
 
 	// ---- TABLE
@@ -238,6 +238,95 @@ func checkC16(c *Ctx) Meta {
 	runErrflow(c, errflowCfg{rule: "C16-ERR", scope: scope,
 		classK: func(fn *ssa.Function, call *ssa.Call) bool { return true },
 		strict: func(fn *ssa.Function, call *ssa.Call) bool { return true }})
+
+	// ---- RECV: the receiver sees decode failures as errors, never as a nil message
+	c.Rule("C16-RECV", "an undecodable frame reaches the receiver loop as an error: readRemoteMessage returns DecodeMessage's error (never a nil message with a nil error), and messageProcessor touches the message only behind the error test", 2)
+	if f := c.MustFn("C16-RECV", "fractal", "(*MessageReceiver).readRemoteMessage"); f != nil {
+		key := "readRemoteMessage:decode-error-returned"
+		decs := callsIn(f, pkgProto+".DecodeMessage")
+		if len(decs) == 0 {
+			c.Bad("C16-RECV", key, c.Pos(f.Pos()), "reason=anchor-missing: DecodeMessage call")
+		}
+		for _, d := range decs {
+			// on the error edge of DecodeMessage no return may report a nil error
+			errs := errResults(d)
+			direct := len(errs) > 0 && flowsToReturn(f, aliasesForward(f, errs[0])) && len(nilTestsOf(f, errs[0])) == 0
+			if direct {
+				c.OK("C16-RECV", key, c.Pos(d.Pos()), "DecodeMessage's results are returned as they are")
+				continue
+			}
+			if len(errs) == 0 || len(nilTestsOf(f, errs[0])) == 0 {
+				c.Bad("C16-RECV", key, c.Pos(d.Pos()), "DecodeMessage's error is neither returned nor tested: a malformed frame yields a nil message with a nil error and the receiver loop dereferences it (process crash on peer input)")
+				continue
+			}
+			r := reach(f, d, errorEdgeCut(f, d, false), nil)
+			bad := false
+			for _, ret := range returnsOf(f) {
+				if r(ret) && isNilErrorReturn(ret) {
+					bad = true
+				}
+			}
+			if bad {
+				c.Bad("C16-RECV", key, c.Pos(d.Pos()), "after DecodeMessage failed the function can still return a nil error (e.g. a shadowed named result): the receiver loop then dereferences a nil message")
+			} else {
+				c.OK("C16-RECV", key, c.Pos(d.Pos()), "every return after a failed DecodeMessage carries a non-nil error")
+			}
+		}
+	}
+	if f := c.MustFn("C16-RECV", "fractal", "(*MessageReceiver).messageProcessor"); f != nil {
+		key := "messageProcessor:message-used-only-after-error-test"
+		rd := firstCall(f, "(*"+repoMod+"/fractal.MessageReceiver).readRemoteMessage")
+		if rd == nil {
+			c.Bad("C16-RECV", key, c.Pos(f.Pos()), "reason=anchor-missing: readRemoteMessage call")
+		} else {
+			msg := resultOf(rd, 0)
+			var uses []ssa.Instruction
+			for al := range aliasesForward(f, msg) {
+				if refs := al.Referrers(); refs != nil {
+					for _, r := range *refs {
+						if cl, ok := r.(*ssa.Call); ok && cl.Call.IsInvoke() && cl.Call.Value == al {
+							uses = append(uses, cl)
+						}
+						if sd, ok := r.(*ssa.Send); ok {
+							uses = append(uses, sd)
+						}
+					}
+				}
+			}
+			if ok, at := unreachableWhenCut(f, errorEdgeCut(f, rd, false), uses); ok && len(uses) > 0 {
+				c.OK("C16-RECV", key, c.Pos(rd.Pos()), fmt.Sprintf("%d uses of the message, all behind err == nil", len(uses)))
+			} else if len(uses) == 0 {
+				c.Bad("C16-RECV", key, c.Pos(rd.Pos()), "reason=anchor-missing: uses of the received message")
+			} else {
+				c.Bad("C16-RECV", key, c.Pos(at.Pos()), "the received message is used although readRemoteMessage reported an error")
+			}
+		}
+	}
+	// the default receive limit really bounds: a limit equal to the largest representable size makes the
+	// size test vacuous
+	if f := c.MustFn("C16-FRAME", "fractal/connection", "defaultOptions"); f != nil {
+		key := "defaultOptions:receive-limit-is-a-real-bound"
+		val := ""
+		for _, a := range fieldAccesses(f) {
+			if a.Kind == "store" && a.Field == "maxRecvMsgSize" {
+				if k, ok := strip(a.In.(*ssa.Store).Val).(*ssa.Const); ok && k.Value != nil {
+					val = k.Value.ExactString()
+				} else {
+					val = "?"
+				}
+			}
+		}
+		switch {
+		case val == "":
+			c.Bad("C16-FRAME", key, c.Pos(f.Pos()), "the default options set no receive limit (0 rejects every frame or, compared as a bound, admits none)")
+		case val == "?":
+			c.Unk("C16-FRAME", key, c.Pos(f.Pos()), "the default receive limit is not a constant")
+		case val == "4294967295" || len(val) > 10:
+			c.Bad("C16-FRAME", key, c.Pos(f.Pos()), "the default receive limit is "+val+", the largest size a frame header can announce: `size > limit` is never true, so a 4-byte header makes the receiver allocate up to 4 GiB")
+		default:
+			c.OK("C16-FRAME", key, c.Pos(f.Pos()), "default receive limit "+val+" bytes (< 2^32-1)")
+		}
+	}
 
 	// ---- FRAME
 	if f := c.MustFn("C16-FRAME", "fractal/connection", "(*Conn).receiveRoutine"); f != nil {
